@@ -348,7 +348,8 @@ class RealRun:
     async def setup(self) -> None:
         self.c, self.s, self.hub = await pair.make_pair(
             server_factory=_server_factory(self.cfgs, self.ssess),
-            server_opts=dict(rekey_bytes=1 << 40), client_opts=dict(rekey_bytes=1 << 40))
+            server_opts=dict(rekey_bytes=1 << 40, **self.case.get('server_opts', {})),
+            client_opts=dict(rekey_bytes=1 << 40, **self.case.get('client_opts', {})))
         await pair.settle(10)
         self.hub.auto = False
         self._mark()
